@@ -134,6 +134,9 @@ MPT_STRUCT(type_traits)
 	{ }
 	static int add_basic(size_t);
 	static int add(const type_traits &);
+# if __cplusplus >= 201103L
+	static int add(type_traits &&);
+# endif
 	static const struct named_traits *add_interface(const char * = 0);
 	static const struct named_traits *add_metatype(const char * = 0);
 	
